@@ -29,6 +29,7 @@ func NewXMLDecoder(prefs XmlPreferences) Decoder {
 }
 
 func (dec *xmlDecoder) Init(reader io.Reader) error {
+	verifYield("decoder.Init")
 	dec.reader = reader
 	dec.readAnything = false
 	dec.finished = false
@@ -165,6 +166,7 @@ func (dec *xmlDecoder) convertToYamlNode(n *xmlNode) (*CandidateNode, error) {
 }
 
 func (dec *xmlDecoder) Decode() (*CandidateNode, error) {
+	verifYield("decoder.Decode")
 	if dec.finished {
 		return nil, io.EOF
 	}
